@@ -103,7 +103,7 @@ def verify_contract(c, src_index, unroll=0, timeout_ms=20000, registry=REGISTRY,
     first = True
     vacuous = False
     base_skel = baseline_skeletons().get(c.name)
-    if base_skel is not None and base_skel != loop_skeleton(fnode):
+    if base_skel is not None and (c.loops or any(x.endswith(':yield') for x in base_skel)) and base_skel != loop_skeleton(fnode):
         # (found by the behaviour-preserving refactorings benign/C19-b1 and benign/C07-b1: a merged loop / a while turned into
         # for-else made obligations of the OLD loops fail on code that behaves the same)
         ex.errors.append('unsupported: the loop / yield structure of the function differs from the one its loop specifications were '
